@@ -24,12 +24,13 @@ const (
 // which would make the scheduler's bookkeeping visible to tsan.
 var (
 	closedList []uintptr
+	closedKeep []any     // the closed channels themselves: keeps them alive so that no new channel gets a listed address
 	waitList   []*thread // parties waiting on an unbuffered channel (chID / chKind say which)
 )
 
 //go:norace
 func chanReset() {
-	closedList, waitList, timerList = nil, nil, nil
+	closedList, closedKeep, waitList, timerList = nil, nil, nil, nil
 }
 
 //go:norace
@@ -169,6 +170,7 @@ func ChanClose[T any](ch chan<- T) {
 	schedule(cur)
 	id := chanID(ch)
 	closedList = append(closedList, id)
+	closedKeep = append(closedKeep, ch)
 	close(ch)
 	// waiting parties of an unbuffered channel are released by the close: receivers get the
 	// zero value, senders panic - each performs its own real operation
